@@ -66,6 +66,9 @@ def cases(ctx):
         a = abs(x)
         info = dict(band87=bool(87 < a <= Fraction(8700087001, 10 ** 8)))
         op = "cprNL %d/%d" % (x.numerator, x.denominator) if single else None
+        if tag.startswith("pyx-"):
+            # the Cython implementation: current c_common.pyx text through the C-semantics transliteration
+            return dict(op=op, real=("h:props.C15.callm", ["cur", "cprNL", lat]), pred=["pred_nl", repr(lat)], tag=tag, trivial=not single, info=info)
         return dict(op=op, real=("pyModeS.common.cprNL", [lat]), pred=["pred_nl", repr(lat)], tag=tag, trivial=not single, info=info)
 
     step = 2000 if not ctx.thorough else 500  # micro-degrees
@@ -76,6 +79,15 @@ def cases(ctx):
     pts = [0.0, 87.0, -87.0, 90.0, -90.0, 87.00087, -87.00087, 86.99913, 87.0005, -87.0005]
     for n, lo, hi in NL_TABLE:
         pts += [lo / E12, -lo / E12]
+    k = -90 * 10 ** 6
+    while k <= 90 * 10 ** 6:
+        yield one(k / 10 ** 6, "pyx-grid")
+        k += step * 5
+    for p in pts:
+        yield one(p, "pyx-point")
+        for q in (math.nextafter(p, math.inf), math.nextafter(p, -math.inf), p + 1e-4, p - 1e-4):
+            if abs(q) <= 90:
+                yield one(q, "pyx-near")
     for p in pts:
         yield one(p, "point")
         up = dn = p
